@@ -460,13 +460,31 @@ func init() {
 			if !hasFixed {
 				continue
 			}
-			for rep := 0; rep < 2; rep++ {
+			// one value per fixed-width field in which THAT field is certainly shorter than its width (so that the pad byte and
+			// the pad side show), plus two random ones
+			var shortOf []int
+			for k, op := range t.fieldOps() {
+				if (op.K == "fixed" || op.K == "fixeds") && op.N > 0 {
+					shortOf = append(shortOf, k)
+				}
+			}
+			for rep := 0; rep < 2+len(shortOf); rep++ {
 				v := g.msg(t.ID, false, 0)
 				if rep == 1 {
 					for k, op := range t.fieldOps() {
 						if op.K == "fixed" && op.N > 0 {
 							v.Fs[k] = &Val{K: 's', S: g.runes(1 + g.r.Intn(op.N))}
 						}
+					}
+				}
+				if rep >= 2 {
+					k := shortOf[rep-2]
+					op := t.fieldOps()[k]
+					short := []byte("Ab9z.Qx7"[:min(8, op.N/2)])
+					if op.K == "fixed" {
+						v.Fs[k] = &Val{K: 's', S: short}
+					} else {
+						v.Fs[k] = &Val{K: 'S', Ss: [][]byte{short, []byte("k"[:min(1, op.N-1)]), short}}
 					}
 				}
 				want, ok := renderPinned(v)
